@@ -347,6 +347,18 @@ def run_case(ctx, i, rng):
             ctx.count("hrefs_of_item_queries")
             got_ = list(HRef.get_all_hrefs_of_item(x))
             e = cmp(ctx, "HRef.get_all_hrefs_of_item(instance)", got_, by_last.get(("instances", id(x)), collections.Counter()))
+            if not e:
+                # HRef.get_all_hrefs_of_instances takes one instance or any iterable of instances - a list, a set, a one-shot iterator
+                sibs_ = [x] + [y for y in d.children if y is not x][:2]
+                wantm = collections.Counter()
+                for y in sibs_:
+                    wantm.update(by_last.get(("instances", id(y)), collections.Counter()))
+                form_ = rng.choice(["list", "iter", "generator", "set", "single"])
+                arg_ = {"list": lambda: list(sibs_), "iter": lambda: iter(sibs_), "generator": lambda: (y for y in sibs_),
+                        "set": lambda: set(sibs_), "single": lambda: x}[form_]()
+                ctx.count("hrefs_of_instances_argument_forms")
+                e = cmp(ctx, "HRef.get_all_hrefs_of_instances(%s of instances)" % form_, list(HRef.get_all_hrefs_of_instances(arg_)),
+                        wantm if form_ != "single" else by_last.get(("instances", id(x)), collections.Counter()))
             if not e and any(not h.is_valid for h in got_):
                 e = "HRef.get_all_hrefs_of_item(instance) returned a reference that reports invalid"
             if not e and rng.random() < 0.5:
